@@ -139,6 +139,9 @@ struct M17FrameDecoder
     {
         state_ = State::LSF;
         frame_number = 0;
+        // LICH fragments collected so far belong to the transmission that just ended.
+        lich_segments = 0;
+        output_buffer.lsf.fill(0);
     }
 
     /**
